@@ -462,6 +462,9 @@ class ParserAI:
                     for item in succs:
                         nb, nst = item[0], item[1]
                         lab = item[2] if len(item) > 2 else None
+                        if lab is None and nb != "RET":
+                            # which current tokens take this edge (a match on peek(), `==`, contains() refine it)
+                            lab = ("guard", nst.la, nst.la != st.la)
                         if nb == "RET":
                             rec.append((k, lab, ("RET", nst)))
                         else:
